@@ -269,8 +269,15 @@ _public_ int m_mod_ps_subscribe(m_mod_t *mod, const char *topic, m_src_flags fla
                 if (old_sub->flags == flags) {
                     /* Only update userptr */
                     old_sub->userptr = userptr;
+                    regfree(&regex);
                     return 0;
                 }
+                /*
+                 * Flags changed: drop old subscription before storing the new one.
+                 * The map's key is the old subscription's own topic (a private copy with M_SRC_DUP):
+                 * it must not outlive it.
+                 */
+                m_map_remove(mod->subscriptions, topic);
             }
         }
 
